@@ -116,6 +116,13 @@ class Sim:
                 r = ('validated',)
             except Exception as exc:
                 r = ('entry-raised', type(exc).__name__, [], str(exc)[-120:])
+        elif op[0] == 'evbad':
+            # a list of addresses whose last one cannot be built (unknown sheet): the request fails, the model must stay sound
+            try:
+                self.m.evaluate(list(op[1]) + ['NoSuchSheet!A1'])
+                r = ('evaluated',)
+            except Exception as exc:
+                r = ('entry-raised', type(exc).__name__, [], str(exc)[-120:])
         elif op[0] == 'trim':
             # trim_graph also builds the graph (and evaluates ranges) outside evaluate(); when it succeeds the model
             # is a different one and the rest of the history is not judged
@@ -171,8 +178,8 @@ def judge(sim, op, res, fired, targets):
     aff = sim.affected(addr)
     if res[0] == 'exc':
         is_pycel = any(c in PYCEL_ERRORS for c in res[2])
-        if res[1] == 'RecursionError' and 'cycles=True' in res[3]:
-            is_pycel = True          # the documented way a RecursionError inside a formula is reported
+        if res[1] == 'RecursionError' and 'cycles=True' in res[3] and sim.kind == 'always-RecursionError':
+            is_pycel = True          # the documented way a RecursionError raised inside a formula is reported
         if aff and (sim.fault_active() or fired):
             if not is_pycel:
                 return 'bare-exception', (f'evaluate({addr}) raised {res[1]} (not one of pycel\'s own errors): {res[3][-120:]}')
@@ -239,7 +246,7 @@ def histories(ops, depth, quick_patterns, deep=True):
             yield from itertools.product(first, sets, [('repair',)], evs)
         # a loaded model, a failure inside validate_calcs, a write to an input, a read
         # an entry point that fails half way, a write, a read
-        entries = [o for o in ops if o[0] in ('validate', 'validate_raise', 'trim')]
+        entries = [o for o in ops if o[0] in ('validate', 'validate_raise', 'trim', 'evbad')]
         if quick_patterns:
             yield from itertools.product(entries, sets, evs)
         vals = [o for o in ops if o[0] == 'validate_raise'] if quick_patterns else [o for o in ops if o[0] in ('validate', 'validate_raise')]
@@ -278,6 +285,7 @@ def work(job):
     targets = fam['cells'] + fam['ranges'][:1]
     inputs = [i for i in fam['inputs'] if i in W.constant_cells(fam['spec'])][:2]
     ops = [('ev', a) for a in targets] + [('set', i, v) for i in inputs for v in VALUES]
+    ops.append(('evbad', tuple(fam['ranges'][:1] + fam['cells'][-2:])))
     if ':' not in target:
         # an array formula cannot be overwritten through set_value (members keep the range formula): no repair op
         ops.append(('repair',))
@@ -297,7 +305,12 @@ def work(job):
     base = dict(kind='fault', wb=fam['name'], fam={k: fam[k] for k in ('name', 'spec', 'ranges', 'unbounded', 'inputs', 'cells')},
                 target=target, fault=kind, mode=mode)
     n = 0
-    for hist in histories(ops, depth, quick_patterns, deep=not kind.startswith('always-')):
+    soak = []
+    if kind in ('unknown', 'always') and fam['name'] in ('chain', 'diamond', 'fan_range', 'two_roots'):
+        # the same failing request two hundred and ten times over, then every cell: nothing may pile up with the failures
+        aff = [('ev', a) for a in targets if a in fam['cells']][-1:]
+        soak = [tuple(aff * 210 + [('ev', a) for a in targets])]
+    for hist in itertools.chain(histories(ops, depth, quick_patterns, deep=not kind.startswith('always-')), soak):
         n += 1
         if run_history(fam, target, kind, mode, hist, targets, acc, base):
             acc.add('distinct_nontrivial')
